@@ -62,6 +62,8 @@ func ValueTypes() []VT {
 		VT{"castDuration", "cast", func(f *dsl.Field) { f.T = dsl.Int64; f.CastType = "Duration" }, true, false, true},
 		VT{"castString", "cast", func(f *dsl.Field) { f.T = dsl.String; f.CastType = "MyString" }, true, false, true},
 		VT{"castInt", "cast", func(f *dsl.Field) { f.T = dsl.Int32; f.CastType = "MyInt" }, true, false, true},
+		VT{"castForeignFloat", "cast", func(f *dsl.Field) { f.T = dsl.Double; f.CastType = dsl.TFX + ".Duration" }, true, false, true},
+		VT{"castForeignInt", "cast", func(f *dsl.Field) { f.T = dsl.Int64; f.CastType = dsl.TFX + ".Seconds" }, true, false, true},
 		VT{"customBool", "custom", func(f *dsl.Field) { f.T = dsl.Bool; f.CustomType = "BoolCustom" }, true, false, false},
 		VT{"customString", "custom", func(f *dsl.Field) { f.T = dsl.String; f.CustomType = "StrCustom" }, false, false, false},
 		VT{"customBytes", "custom", func(f *dsl.Field) { f.T = dsl.Bytes; f.CustomType = "BytesCustom" }, false, false, false},
